@@ -336,6 +336,18 @@ func (p *Packer) packWalkFn(root, src, dst string, tarW *tar.Writer, meta *Meta,
 // encounter a symbolic link chain. It returns path information about the final
 // target pointing to a regular file or directory.
 func (p *Packer) resolveExternalLink(root string, path string) (*externalSymlink, error) {
+	return p.resolveExternalLinkHops(root, path, maxSymlinkHops)
+}
+
+// maxSymlinkHops bounds the length of a symlink chain that is followed while
+// dereferencing, like the operating system does (ELOOP).
+const maxSymlinkHops = 40
+
+func (p *Packer) resolveExternalLinkHops(root string, path string, hops int) (*externalSymlink, error) {
+	if hops == 0 {
+		return nil, fmt.Errorf("failed to resolve symlink %q: too many levels of symbolic links", path)
+	}
+
 	// Read the symlink file to find the destination.
 	target, err := os.Readlink(path)
 	if err != nil {
@@ -359,7 +371,7 @@ func (p *Packer) resolveExternalLink(root string, path string) (*externalSymlink
 
 	// Recurse if the symlink resolves to another symlink
 	if info.Mode()&os.ModeSymlink != 0 {
-		return p.resolveExternalLink(root, absTarget)
+		return p.resolveExternalLinkHops(root, absTarget, hops-1)
 	}
 
 	return &externalSymlink{
